@@ -25,6 +25,7 @@ type LeaseScenario struct {
 	SameLocker  bool    // diesout: second tenure on the same Locker
 	TwoWaiters  bool    // lapse: a first waiter that gives up before the lease lapses, a second one that stays
 	Storage     string  // "" (kvs/inmem) or "redis" (kvs/redis over miniredis on the virtual clock, polling waiters)
+	ManyFaults  bool    // kept: renewal requests may be lost many times in one tenure (request-lost only, fault budget from the config)
 	CtxEnds     bool    // kept: the holder acquires with LockWithCtx and that context is cancelled a fifth of a lease later; the storage honours contexts
 }
 
@@ -35,6 +36,9 @@ func (sc *LeaseScenario) String() string {
 	}
 	if sc.CtxEnds {
 		s += " acquisition-context-ends"
+	}
+	if sc.ManyFaults {
+		s += " request-lost-only"
 	}
 	return s
 }
@@ -128,6 +132,7 @@ func (sc *LeaseScenario) Build(obs *LeaseObs) func() {
 		switch sc.Kind {
 		case "kept":
 			gH.RenewFaults = sc.RenewFaults
+			gH.RequestLostOnly = sc.ManyFaults
 			holding, unlocked, hdone, cdone, pdone := false, false, false, false, false
 			vsched.GoNamed("holder", func() {
 				defer func() { hdone = true }()
